@@ -82,6 +82,18 @@ class PipelineUnit(WeaverUnit):
                     if not rfa_units.adaptive_windows_exact(chk)[2]:
                         continue
                 cases.append(c)
+        # a profile that ends at the level it started (y[-1] == y[0]) with the documented periodic append: the appended interval exists
+        # and carries the average y[-1] like any other
+        for s in rfa_units.STRATS:
+            m = rng.randint(4, 7)
+            ys_ = gens.values(rng, m, "int")
+            ys_[-1] = ys_[0]
+            c = prog(gens.sorted_x(rng, m), ys_, s, rng.choice([2, 4, 8]), True, rng.choice(["trapezoid", "rectangle"]), m_for_mk=m)
+            if c["script"][-2]["strategy"] in ("linadapt", "expadapt"):
+                chk = dict(c["script"][-2]); chk["x"], chk["y"] = c["x"], c["y"] + [c["y"][0]]
+                if not rfa_units.adaptive_windows_exact(chk)[2]:
+                    continue
+            cases.append(c)
         # every bundled dataset (model comparison is skipped for them in the quick tier: long series)
         for name, bx, by in bundled():
             s = rng.choice(["expadapt", "linfixed", "pc", "expfixed", "linadapt"])
